@@ -85,3 +85,7 @@ def odg_drawing():
 
 def ods_cell():
     return parse(ODS_CELL, NS, "tcell")
+
+
+def odp_table():
+    return parse(ODP, NS, "table")
